@@ -848,9 +848,10 @@ def run(ctx):
     gen.stream_c()
     gen.stream_d()
     gen.stream_e()
-    nz = T.c04_zero_divisors(gen)        # stream H: comparisons of whole numbers in [2^52, 2^64) closer than a double ulp with operands of every kind combination (Natural / Integer / exactly representable Real, produced as literals, variables and arithmetic), && and || over them, adjacent and fractional Reals, huge unsigned vs negative signed, in four entry points with an exact integer oracle; stream Z: zero divisors of every origin incl. Real -0.0 (round c)
+    nz = T.c04_zero_divisors(gen)        # stream U: - + * / % ^ | & on unsigned operands (literals, variables, computed) with exact results in [2^63, 2^64) and beside the edges, as such and as sub-expressions, exact integer oracle on four entry points; stream H: comparisons of whole numbers in [2^52, 2^64) closer than a double ulp with operands of every kind combination (Natural / Integer / exactly representable Real, produced as literals, variables and arithmetic), && and || over them, adjacent and fractional Reals, huge unsigned vs negative signed, in four entry points with an exact integer oracle; stream Z: zero divisors of every origin incl. Real -0.0 (round c)
     ctx.notes.append("stream Z: %d expressions dividing by a zero (literal / variable / computed, +0 and -0)" % nz)
     nh = T.c04_huge_compare(gen)         # stream H: comparisons of whole numbers above 2^53 across number kinds (round e)
+    nu = T.c04_unsigned_arith(gen)       # stream U: arithmetic on Naturals with exact results in [2^63, 2^64) (round g)
     exprs = gen.exprs
     ctx.notes.append("corpus lines: %d; generated expressions: %d; candidates rejected by the 64-bit-safe filter: %d" % (ncorpus, len(exprs), gen.rejected))
 
@@ -941,6 +942,7 @@ def run(ctx):
 
     T.c04_zero_divisor_oracle(ctx, exprs, meta, lines, impl, model, units_of, split_model)
     T.c04_huge_compare_oracle(ctx, exe, gen, exprs, meta, lines, impl, units_of)
+    T.c04_unsigned_arith_oracle(ctx, exe, gen, exprs, meta, lines, impl, units_of)
     # ---- S3: the exact reference evaluator on the generated structure -------------------------------
     p_out = {}
     for i, (k, mode) in enumerate(meta):
